@@ -127,7 +127,7 @@ func cmdDriveLines(args []string) error {
 			dns := urlfilter.NewDNSEngine(st)
 			for _, q := range reqs {
 				if q.IsHostnameRequest {
-					res, _ := dns.MatchRequest(&urlfilter.DNSRequest{Hostname: q.Hostname, ClientName: q.ClientName, SortedClientTags: q.SortedClientTags, DNSType: q.DNSType})
+					res, _ := dns.MatchRequest(&urlfilter.DNSRequest{Hostname: q.Hostname, ClientName: q.ClientName, ClientIP: q.ClientIP, SortedClientTags: q.SortedClientTags, DNSType: q.DNSType})
 					_ = res.DNSRewrites()
 				} else {
 					mr := eng.MatchRequest(q)
@@ -188,6 +188,20 @@ func cmdDriveLines(args []string) error {
 			out.write(me)
 		}
 		batch = append(batch, line)
+		if rnd.Intn(25) == 0 {
+			// a family of near-twins in the same list: a rule, the rule with one modifier less, and their $badfilter
+			// versions - all of them match the hostname requests above, so every pair is compared when a query runs
+			pool := []string{"client=1.1.1.1", "client='Frank\\'s laptop'", "ctag=a", "dnstype=A", "denyallow=x.com", "important", "ctag=~zz", "client=~9.9.9.9"}
+			rnd.Shuffle(len(pool), func(i, j int) { pool[i], pool[j] = pool[j], pool[i] })
+			opts := pool[:1+rnd.Intn(3)]
+			pat := []string{"||example.org^", "@@||example.org^"}[rnd.Intn(2)]
+			fam := []string{pat, pat + "$badfilter", pat + "$" + strings.Join(opts, ","), pat + "$" + strings.Join(opts, ",") + ",badfilter"}
+			if len(opts) > 1 {
+				fam = append(fam, pat+"$"+strings.Join(opts[1:], ","), pat+"$"+strings.Join(opts[1:], ",")+",badfilter")
+			}
+			rnd.Shuffle(len(fam), func(i, j int) { fam[i], fam[j] = fam[j], fam[i] })
+			batch = append(batch, fam[:2+rnd.Intn(len(fam)-1)]...)
+		}
 		if len(batch) >= 40 {
 			flush()
 		}
